@@ -1,5 +1,6 @@
 import AgdbColl.Model.MultiMapOps
 import AgdbColl.Lemmas.Inv
+import AgdbColl.Lemmas.Values
 /-!
 # C19 — every query terminates after any history (hashed collections)
 
@@ -94,6 +95,35 @@ most `capacity` steps, on ANY table (no invariant needed) -/
 theorem C19_value_terminates (h : K → Nat) (m : MM K T) (k : K) :
     ∀ F, m.cap ≤ F → ∃ r, value h F m k = .ok r :=
   fun F hF => value_ok h F m k hF
+
+/-- full statement for draining `iter_key(key)` (`values`, `values_count`, `contains_value`; used
+by index search): terminates after any history -/
+def C19_values_terminates_statement (h : K → Nat) : Prop :=
+  ∀ m : MM K T, Reachable h m → ∀ key v F, m.cap + 1 ≤ F →
+    (∃ r, values h F m key = .ok r) ∧ (∃ r, containsValue h F m key v = .ok r)
+
+/-- **Partial**: the whole iteration terminates on ANY table in which the slot cyclically before
+the key's home position does not hold the key (`NoWrapAt`). What is missing for the full statement:
+a proof that `NoWrapAt` holds after every history (a pair can sit `capacity - 1` slots from home
+only if all other `capacity - 1` slots were `Valid` when it was placed, impossible under the
+`15/16` load limit; needs a first-free-slot characterisation of the three placement loops). Each
+single `next` call terminates unconditionally (`C19_value_terminates`). -/
+theorem C19_values_terminates_partial (h : K → Nat) (m : MM K T) (key : K) (v : T)
+    (hnw : NoWrapAt m.slots key (homePos h m key)) :
+    ∀ F, m.cap + 1 ≤ F →
+      (∃ r, values h F m key = .ok r) ∧ (∃ r, containsValue h F m key v = .ok r) := by
+  intro F hF
+  unfold values containsValue
+  by_cases h0 : m.cap = 0
+  · simp only [h0, if_true]; exact ⟨⟨_, rfl⟩, ⟨_, rfl⟩⟩
+  · simp only [h0, if_false]
+    have hcapdef : m.cap = m.slots.length := rfl
+    have hhome : homePos h m key < m.slots.length := by
+      simp only [homePos, h0, if_false]
+      rw [← hcapdef]; exact Nat.mod_lt _ (by omega)
+    have hd0 : distFrom m.slots.length (homePos h m key) (homePos h m key) = 0 := by simp [distFrom]
+    exact ⟨collectLoop_ok key _ m.slots hhome F (by omega) hnw F _ [] hhome (by omega),
+      containsValueLoop_ok key v _ m.slots hhome F (by omega) hnw F _ hhome (by omega)⟩
 
 /-- every history runs to completion (so `Reachable` is the closure over ALL histories) -/
 theorem C19_every_history_runs (h : K → Nat) (ops : List (MOp K T)) :
